@@ -67,6 +67,11 @@ def check_format_agreement(chk) -> None:
             pdb = dict(c08e.ATOM_FIELDS, altLoc=alt, occupancy=occ.rjust(6))
             cif = dict(c08e.CIF_FULL, group_PDB=rec, label_alt_id="." if alt == " " else alt, occupancy=occ)
             cases.append((f"{rec} record, alternate location {alt!r}, occupancy {occ}", {"record": rec, **pdb}, cif))
+    # the atom name, one case per class of the name language: plain, primed, starred (pre-remediation), old phosphate oxygens
+    for nm in ("N1", "C4'", "C5*", "O1P", "OP1"):
+        pdb = dict(c08e.ATOM_FIELDS, name=(" " + nm).ljust(4)[:4])
+        cif = dict(c08e.CIF_FULL, label_atom_id=nm, auth_atom_id=nm)
+        cases.append((f"ATOM record, atom name {nm!r}", {"record": "ATOM", **pdb}, cif))
     diffs: Dict[str, str] = {}
     n = 0
     try:
@@ -91,6 +96,8 @@ def check_format_agreement(chk) -> None:
             nb = len(b) if isinstance(b, list) else b
             if na != nb:
                 diffs[tag] = f"PDB reader: {na} atom(s), mmCIF reader: {nb} atom(s)"
+            elif "atom name" in tag and isinstance(a, list) and isinstance(b, list) and len(a) == 1 and a[0].get("name") != b[0].get("name"):
+                diffs[tag] = f"PDB reader: atom named {a[0].get('name')!r}, mmCIF reader: atom named {b[0].get('name')!r}"
     except Unknown as ex:
         chk.error(rule, fa.where, f"the two readers are not evaluable on representative records: {str(ex)[:120]}")
         return
@@ -99,7 +106,7 @@ def check_format_agreement(chk) -> None:
         rule,
         fa.where,
         f"the same atom record written as a PDB line and as an mmCIF row is kept or dropped alike by parse_pdb and parse_cif ({n} cases: ATOM / HETATM x alternate location blank, A, B, C x occupancy); choosing among alternate locations is left to the common filter_clashing_atoms",
-        f"the PDB reader and the mmCIF reader do not hand the same atoms to filter_clashing_atoms: {dict(list(diffs.items())[:3])} - one reader drops records by the alternate-location indicator on its own while the other keeps them for the occupancy-based choice, so the PDB and the mmCIF file of one structure give different atoms (and different annotations) wherever a non-first conformer has the higher occupancy",
+        f"the PDB reader and the mmCIF reader do not hand the same atoms to filter_clashing_atoms: {dict(list(diffs.items())[:3])} - one reader filters or rewrites records on its own (alternate-location indicator, atom names) while the other takes them as they are, so the PDB and the mmCIF file of one structure give different atoms and therefore different annotations",
         K(fa, "format-same-atoms"),
         found=diffs,
     )
